@@ -103,7 +103,11 @@ def run_serve_aio(cfg: Dict[str, Any], programs: Dict[str, list],
                 loop._vtime = target
 
         async def settle(self, horizon: float = 1e6) -> str:
-            return await loop.run_until(loop.time() + horizon)
+            target = loop.time() + horizon
+            r = await loop.run_until(target)
+            if loop._vtime < target:
+                loop._vtime = target
+            return r
 
         def start_server(self) -> None:
             from hypercorn.asyncio import serve
